@@ -2,6 +2,7 @@ package db
 
 import (
 	"errors"
+	"strings"
 
 	"github.com/tailscale/setec/acl"
 	"github.com/tailscale/setec/audit"
@@ -199,5 +200,33 @@ func verifHarnessC01List() {
 		}
 	}
 	assert("no-duplicates", distinct)
+	reach("end")
+}
+
+// End to end through the real rule evaluation (no ALLOW abstraction): one rule with a one-star pattern.
+func verifHarnessC01RealRule() {
+	k := verifSymKV(param("secrets"), param("versions"), "")
+	assume(verifKVInv(k))
+	d := verifDB(k, &verifSink{})
+	p0, p1 := nondetString("piece"), nondetString("piece")
+	assume(and(not(strings.Contains(p0, "*")), not(strings.Contains(p1, "*")), strLenLE(p0, 3), strLenLE(p1, 3), validText(p0), validText(p1)))
+	pat := p0 + "*" + p1
+	registerSplit(pat, "*", p0, p1)
+	granted := acl.Action(nondetString("granted.action"))
+	caller := Caller{Principal: audit.Principal{User: "u"}, Permissions: acl.Rules{{Action: []acl.Action{granted}, Secret: []acl.Secret{acl.Secret(pat)}}}}
+	name := nondetString("name")
+	assume(and(strLenLE(name, 8), validText(name)))
+	pre := snapshot(k.secrets)
+
+	sv, err := d.Get(caller, name)
+
+	matches := globOracle(name, p0, p1)
+	if sv != nil {
+		assert("value-only-with-get-on-a-matching-pattern", and(granted == acl.ActionGet, matches))
+	}
+	if !and(granted == acl.ActionGet, matches) {
+		assert("refused", and(sv == nil, errors.Is(err, ErrAccessDenied)))
+	}
+	assert("state-unchanged", deepEq(k.secrets, pre))
 	reach("end")
 }
